@@ -1,6 +1,7 @@
 import SplinkVerif.Drv.CC
 import SplinkVerif.Drv.MultiThreshold
 import SplinkVerif.Drv.Blocking
+import SplinkVerif.Drv.Score
 /-! Line-protocol driver: one JSON object per input line, one JSON object per output line. -/
 open Lean SplinkVerif.Drv
 
@@ -10,6 +11,7 @@ def dispatch (j : Json) : Except String Json := do
   | "cc" => handleCC j
   | "multi" => handleMulti j
   | "block" => handleBlock j
+  | "score" => handleScore j
   | "ping" => pure (Json.mkObj [("pong", Json.bool true)])
   | _ => throw s!"unknown op {op}"
 
